@@ -8,6 +8,11 @@ import (
 
 // Simple helper that will take 2 or more integers, and apply an operation
 func arithmaticHelperi(equation func(int, int) int) KeyBuilderFunction {
+	return arithmaticHelperiChecked(equation, nil)
+}
+
+// rightOk, when given, decides whether a right-hand operand is acceptable
+func arithmaticHelperiChecked(equation func(int, int) int, rightOk func(int) bool) KeyBuilderFunction {
 	return KeyBuilderFunction(func(args []KeyBuilderStage) (KeyBuilderStage, error) {
 		if len(args) < 2 {
 			return stageErrArgRange(args, "2+")
@@ -29,12 +34,21 @@ func arithmaticHelperi(equation func(int, int) int) KeyBuilderFunction {
 				if !ok {
 					return ErrorNum
 				}
+				if rightOk != nil && !rightOk(val) {
+					return ErrorValue
+				}
 				final = equation(final, val)
 			}
 
 			return strconv.Itoa(final)
 		}), nil
 	})
+}
+
+// Like arithmaticHelperi, for operations that are undefined for a zero right-hand side (division, modulo):
+// yields ErrorValue instead of evaluating them
+func arithmaticHelperiNonZero(equation func(int, int) int) KeyBuilderFunction {
+	return arithmaticHelperiChecked(equation, func(b int) bool { return b != 0 })
 }
 
 // Simple helper that will take 2 or more integers, and apply an operation
